@@ -4,10 +4,10 @@ CONSTANT Chans = {"A", "B"}
 CONSTANT Users <- U2
 CONSTANT GrantOpts <- GO2
 CONSTANT ReqSets <- RS2
-CONSTANT MaxWrites = 3
-CONSTANT PutSets <- PSAll
-CONSTANT ConfSets <- PSAll
-CONSTANT Lims = {0, 1, 2}
+CONSTANT MaxWrites = 2
+CONSTANT PutSets <- PS3
+CONSTANT ConfSets <- CS1
+CONSTANT Lims = {0, 1}
 SPECIFICATION Spec
 VIEW view
 INVARIANT OracleAdmitsReference
